@@ -434,7 +434,7 @@ where
 
 	// First attempt to spend without change
 	let mut fee = tx_fee(coins.len(), 1, 1);
-	let mut total: u64 = coins.iter().map(|c| c.value).sum();
+	let mut total: u64 = total_value(&coins)?;
 	let mut amount_with_fee = match amount_includes_fee {
 		true => amount,
 		false => amount.checked_add(fee).ok_or_else(|| {
@@ -498,7 +498,7 @@ where
 			)
 			.1;
 			fee = tx_fee(coins.len(), num_outputs, 1);
-			total = coins.iter().map(|c| c.value).sum();
+			total = total_value(&coins)?;
 			amount_with_fee = match amount_includes_fee {
 				true => amount,
 				false => amount.checked_add(fee).ok_or_else(|| {
@@ -516,6 +516,14 @@ where
 		false => amount,
 	};
 	Ok((coins, total, new_amount, fee))
+}
+
+/// Total value of a set of outputs, refusing to wrap around
+fn total_value(coins: &[OutputData]) -> Result<u64, Error> {
+	coins
+		.iter()
+		.try_fold(0u64, |acc, c| acc.checked_add(c.value))
+		.ok_or_else(|| Error::GenericError("Total value of selected outputs is too large".into()))
 }
 
 /// Selects inputs and change for a transaction
@@ -543,7 +551,7 @@ where
 	let mut parts = vec![];
 
 	// calculate the total across all inputs, and how much is left
-	let total: u64 = coins.iter().map(|c| c.value).sum();
+	let total: u64 = total_value(coins)?;
 
 	// if we are spending 10,000 coins to send 1,000 then our change will be 9,000
 	// if the fee is 80 then the recipient will receive 1000 and our change will be
@@ -674,18 +682,20 @@ where
 }
 
 fn select_from(amount: u64, select_all: bool, outputs: Vec<OutputData>) -> Option<Vec<OutputData>> {
-	let total = outputs.iter().fold(0, |acc, x| acc + x.value);
+	let total = outputs
+		.iter()
+		.fold(0u64, |acc, x| acc.saturating_add(x.value));
 	if total >= amount {
 		if select_all {
 			Some(outputs.to_vec())
 		} else {
-			let mut selected_amount = 0;
+			let mut selected_amount = 0u64;
 			Some(
 				outputs
 					.iter()
 					.take_while(|out| {
 						let res = selected_amount < amount;
-						selected_amount += out.value;
+						selected_amount = selected_amount.saturating_add(out.value);
 						res
 					})
 					.cloned()
